@@ -174,6 +174,26 @@ def _copy_specs(d):
         shutil.copy(f, d)
 
 
+def _run_group(cmd, cwd, env, timeout):
+    """Run a command in its own process group; on timeout kill that group only (other TLC runs are not touched)."""
+    import signal
+    logf = os.path.join(cwd, "_stdout.log")
+    with open(logf, "w") as lf:
+        p = subprocess.Popen(cmd, cwd=cwd, env=env, stdout=lf, stderr=subprocess.STDOUT, start_new_session=True)
+        try:
+            rc = p.wait(timeout=timeout)
+        except subprocess.TimeoutExpired:
+            try:
+                os.killpg(p.pid, signal.SIGKILL)
+            except ProcessLookupError:
+                pass
+            p.wait()
+            rc = -9
+    with open(logf, errors="replace") as lf:
+        out = lf.read()
+    return out, rc
+
+
 def parse_tlc_trace(out):
     """Parse the counterexample states of a TLC run's stdout."""
     states = []
@@ -228,15 +248,7 @@ def tlc(module, cfg, name=None, workers=None, timeout=600, stop_after=None, extr
     t0 = time.time()
     res = TLCResult()
     res.cfg = cfg
-    try:
-        p = subprocess.run(cmd, cwd=d, env=env, stdout=subprocess.PIPE, stderr=subprocess.STDOUT, text=True,
-                           timeout=timeout)
-        out = p.stdout
-        rc = p.returncode
-    except subprocess.TimeoutExpired as e:
-        out = (e.stdout or b"").decode() if isinstance(e.stdout, bytes) else (e.stdout or "")
-        rc = -9
-        subprocess.run("pkill -f 'tlc2.TL[C]' || true", shell=True)
+    out, rc = _run_group(cmd, d, env, timeout)
     res.wall = time.time() - t0
     res.out = out
     res.rc = rc
@@ -308,13 +320,7 @@ def tlc_simulate(module, cfg, num, depth, seed, name=None, timeout=600, files=No
            "-simulate", "file=%s,num=%d" % (os.path.join(d, "sim", "b"), num), "-depth", str(depth),
            "-seed", str(seed), "-config", cfg, module + ".tla"]
     t0 = time.time()
-    try:
-        p = subprocess.run(cmd, cwd=d, env=env, stdout=subprocess.PIPE, stderr=subprocess.STDOUT, text=True,
-                           timeout=timeout)
-        out = p.stdout
-    except subprocess.TimeoutExpired as e:
-        out = e.stdout.decode() if isinstance(e.stdout, bytes) else (e.stdout or "")
-        subprocess.run("pkill -f 'tlc2.TL[C]' || true", shell=True)
+    out, _ = _run_group(cmd, d, env, timeout)
     res = TLCResult()
     res.out = out
     res.wall = time.time() - t0
